@@ -307,7 +307,10 @@ func relevance(focus string, t castTarget, s srcVal) float64 {
 				return 1
 			}
 			if isText {
-				return 0.3
+				return 0.5
+			}
+			if s.kind == "time.Time" {
+				return 1 // a time accepted by an integer cast must be its Unix seconds (before 1970: negative)
 			}
 		}
 	case "C10":
